@@ -380,7 +380,25 @@ func run(p Prog) *prog.Result {
 				}
 			}
 		}
-		correctDelivered := map[int]bool{}
+		// correctFor[i]: the signers of whom a CORRECT share for duty object i has been delivered in a message the
+		// runner has to take (right slot, right roots) - whether or not the same signer also delivered wrong or
+		// replaced shares before or after. pureCorrect: the non-faulty members among them (the weaker count).
+		correctFor := make([]map[int]bool, len(pd.roots))
+		for i := range correctFor {
+			correctFor[i] = map[int]bool{}
+		}
+		pureCorrect := map[int]bool{}
+		wrongKinds := map[int][]string{}
+		seqOf := map[int]string{} // per faulty member: o = correct share, w = wrong share, r = message refused as a whole
+		minCorrect := func() int {
+			m := -1
+			for _, c := range correctFor {
+				if m < 0 || len(c) < m {
+					m = len(c)
+				}
+			}
+			return max(m, 0)
+		}
 		lastKind := map[int]string{}
 		reconFailed, failedBeforeSubmit := 0, false
 
@@ -449,16 +467,17 @@ func run(p Prog) *prog.Result {
 				}
 			}
 			// (c) cannot prevent: 2f+1 distinct correct members' shares delivered => every duty object submitted
-			if len(correctDelivered) >= quorum && pd.exempt == "" {
+			if pd.exempt == "" {
 				for i, c := range perObj {
-					if c != 1 {
-						sig := "C05:not-submitted-despite-correct-quorum"
-						if len(pd.roots) > 1 {
-							sig = "C05:multi-root-object-not-submitted-despite-correct-quorum"
-						}
-						return prog.Failf(sig, "duty %d step %d: shares of %d distinct correct members (2f+1 = %d) have been delivered, but decided object #%d of %d has %d submissions (finished=%v)\n%s",
-							di, step, len(correctDelivered), quorum, i, len(pd.roots), c, !s.Runner(pd.role).HasRunningDuty(), strings.Join(trace, "\n"))
+					if len(correctFor[i]) < quorum || c == 1 {
+						continue
 					}
+					sig := "C05:not-submitted-despite-correct-quorum"
+					if len(pd.roots) > 1 {
+						sig = "C05:multi-root-object-not-submitted-despite-correct-quorum"
+					}
+					return prog.Failf(sig, "duty %d step %d: correct shares of %d distinct signers (2f+1 = %d; %d of them never sent anything wrong) have been delivered for decided object #%d of %d, but it has %d submissions (finished=%v)\n%s",
+						di, step, len(correctFor[i]), quorum, len(pureCorrect), i, len(pd.roots), c, !s.Runner(pd.role).HasRunningDuty(), strings.Join(trace, "\n"))
 				}
 			}
 			return nil
@@ -522,8 +541,32 @@ func run(p Prog) *prog.Result {
 				return res
 			}
 			if !faulty[a.From] {
-				correctDelivered[a.From] = true
+				pureCorrect[a.From] = true
+				for i := range correctFor {
+					correctFor[i][a.From] = true
+				}
 			} else {
+				// which of this message's shares are correct ones the runner has to take
+				letter := "w"
+				switch kind {
+				case "good":
+					letter = "o"
+					for i := range correctFor {
+						correctFor[i][a.From] = true
+					}
+				case "wrong-root", "wrong-slot":
+					letter = "r" // refused as a whole: none of its shares counts
+				default:
+					for i := range correctFor {
+						if !(a.Mask == 0 || len(pd.objs) == 1 || a.Mask&(1<<uint(i)) != 0) {
+							correctFor[i][a.From] = true // a root the fault does not touch
+						}
+					}
+				}
+				seqOf[a.From] += letter
+				if letter != "o" {
+					wrongKinds[a.From] = append(wrongKinds[a.From], kind)
+				}
 				classes["kind="+kind] = true
 				if prev, ok := lastKind[a.From]; ok {
 					switch {
@@ -587,8 +630,37 @@ func run(p Prog) *prog.Result {
 		if reconFailed > 1 {
 			classes["reconstruction-failed>1"] = true
 		}
-		if len(correctDelivered) >= quorum {
+		if minCorrect() >= quorum {
 			classes["correct-quorum-delivered"] = true
+			if len(pureCorrect) < quorum {
+				// the stronger reading was the binding one: the quorum of correct signatures includes the correct
+				// share of a member that also sent wrong ones
+				classes["c-binding:faulty-members-correct-share-needed"] = true
+				for m, sq := range seqOf {
+					if !strings.Contains(sq, "o") {
+						continue
+					}
+					first := strings.Index(sq, "o")
+					if strings.ContainsAny(sq[:first], "w") {
+						classes["c-binding:wrong-then-correct"] = true
+					}
+					if strings.ContainsAny(sq[first:], "w") {
+						classes["c-binding:correct-then-wrong"] = true
+					}
+					if strings.Count(sq, "o") > 1 {
+						classes["c-binding:correct-twice"] = true
+					}
+					for _, k := range wrongKinds[m] {
+						classes["c-binding:with-"+k] = true
+					}
+				}
+			}
+		}
+		for _, sq := range seqOf {
+			if len(sq) > 3 {
+				sq = sq[:3] + "+"
+			}
+			classes["faulty-seq="+sq] = true
 		}
 		if submitted && failedBeforeSubmit {
 			res.NonTrivial = true
@@ -615,7 +687,73 @@ var (
 
 // ---- generator -------------------------------------------------------------------------------------
 
+// seqPatterns: what one faulty member sends before the quorum edge in the mixed mode. o = its correct share,
+// w = a wrong share for the right root (garbage, infinity, signature over another root / by another key),
+// r = a message the runner refuses as a whole (names another root or slot).
+var seqPatterns = []string{"ow", "ow", "wo", "wo", "oww", "wow", "wwo", "owo", "oow", "woo", "o", "or", "ro", "wor", "orw"}
+
+// genMixedEarly: every faulty member sends a sequence that contains its correct share, and these sequences are
+// interleaved (each member's own order kept) with the shares of just enough correct members that the 2f+1-th
+// correct signature arrives at the end of that prefix and includes the faulty members' correct shares
+// (e.g. N=4: "1 ok, 1 wrong, 2 ok, 3 ok"). The remaining members follow.
+func genMixedEarly(t *rapid.T, n int, isFaulty map[int]bool) []Arrival {
+	q := 2*fx.F(n) + 1
+	var fids, cids []int
+	for i := 1; i <= n; i++ {
+		if isFaulty[i] {
+			fids = append(fids, i)
+		} else {
+			cids = append(cids, i)
+		}
+	}
+	pat := map[int]string{}
+	var slots []int
+	for _, m := range fids {
+		pat[m] = rapid.SampledFrom(seqPatterns).Draw(t, "pattern")
+		for range pat[m] {
+			slots = append(slots, m)
+		}
+	}
+	cperm := rapid.Permutation(cids).Draw(t, "correct-order")
+	need := q - len(fids)
+	slots = append(slots, cperm[:need]...)
+	slots = rapid.Permutation(slots).Draw(t, "prefix-order")
+	pos := map[int]int{}
+	var out []Arrival
+	for _, m := range slots {
+		a := Arrival{From: m}
+		if isFaulty[m] {
+			switch pat[m][pos[m]] {
+			case 'o':
+				a.Kind = "good"
+			case 'w':
+				a.Kind = rapid.SampledFrom([]string{"garbage", "infinity", "other-root", "other-key"}).Draw(t, "wrong-kind")
+			default:
+				a.Kind = rapid.SampledFrom([]string{"wrong-root", "wrong-slot"}).Draw(t, "refused-kind")
+			}
+			pos[m]++
+			a.Mask = uint8(rapid.IntRange(0, 7).Draw(t, "mask"))
+			a.Seed = uint16(rapid.IntRange(0, 1000).Draw(t, "seed"))
+		}
+		out = append(out, a)
+	}
+	var rest []Arrival
+	for _, m := range cperm[need:] {
+		rest = append(rest, Arrival{From: m})
+	}
+	for k := rapid.IntRange(0, 2).Draw(t, "late-junk"); k > 0 && len(fids) > 0; k-- {
+		rest = append(rest, Arrival{From: rapid.SampledFrom(fids).Draw(t, "junk-from"),
+			Kind: rapid.SampledFrom(faultKinds).Draw(t, "kind"),
+			Mask: uint8(rapid.IntRange(0, 7).Draw(t, "mask")),
+			Seed: uint16(rapid.IntRange(0, 1000).Draw(t, "seed"))})
+	}
+	return append(out, rapid.Permutation(rest).Draw(t, "rest-order")...)
+}
+
 func genArrivals(t *rapid.T, n int, isFaulty map[int]bool) []Arrival {
+	if len(isFaulty) > 0 && rapid.IntRange(0, 9).Draw(t, "mixed-early") < 4 {
+		return genMixedEarly(t, n, isFaulty)
+	}
 	var items []Arrival
 	for i := 1; i <= n; i++ {
 		if isFaulty[i] {
